@@ -420,6 +420,16 @@ def _worker(job):
                         rhs.append([2, repr(s)])
                 prods.append([pr.symbol.fqn, fidx(pr.symbol), pr.symbol.name, rhs])
             out["prods"] = prods
+            # every production knows which alternative of ITS rule it is (a per-alternative action list
+            # is indexed by it): rules of different files may share a bare name
+            seen_alt = {}
+            bad_psid = []
+            for pr in g.productions[1:]:
+                k = seen_alt.get(id(pr.symbol), 0)
+                seen_alt[id(pr.symbol)] = k + 1
+                if pr.prod_symbol_id != k:
+                    bad_psid.append([pr.symbol.fqn, k, pr.prod_symbol_id])
+            out["bad_psid"] = bad_psid[:5]
             # language of the modular grammar
             if inputs is not None:
                 for attempt in (0, 1):
@@ -855,6 +865,12 @@ def judge(ctx, D, S, r, mv, stats):
     clean = True
     iv = impl_view(r)
     kf_names = {e["id"] for e in ctx.kf}
+    if r.get("bad_psid"):
+        stats["bad_alternative_index"] = stats.get("bad_alternative_index", 0) + 1
+        ctx.violation("a production of the modular grammar carries the wrong alternative index (prod_symbol_id): "
+                      "%s is alternative %d of its rule but says %d -- a per-alternative action list picks another "
+                      "action than in the flattened grammar" % tuple(r["bad_psid"][0]), rep, key="psid")
+        clean = False
     # ---- 1. correspondence model vs impl
     if mv["status"] == ["fuel"]:
         stats["fuel"] += 1
